@@ -41,10 +41,13 @@ def mkStep {σ : Type} (I : Impl σ) (new : Nat → Option σ) (newimg : Nat →
     (reopen : σ → Nat → Option σ) (s : Option (σ × Heap)) (ws : List String) : Option (σ × Heap) × String :=
   match ws with
   | ["new", n] =>
+    -- a disk whose byte length is not a file offset cannot be opened (`Model.Disk.openable`)
+    if (n.toNat?.map (fun k => !(openable BS k))).getD false then (none, "panic") else
     match n.toNat? >>= new with
     | some st => (some (st, []), "ok")
     | none => (none, "unsupported")
   | ["newimg", n, len, fill] =>
+    if (n.toNat?.map (fun k => !(openable BS k))).getD false then (none, "panic") else
     match n.toNat?, len.toNat?, fill.toNat? with
     | some n, some len, some fill =>
       match newimg n (List.replicate len (UInt8.ofNat fill)) with
@@ -52,6 +55,7 @@ def mkStep {σ : Type} (I : Impl σ) (new : Nat → Option σ) (newimg : Nat →
       | none => (none, "unsupported")
     | _, _, _ => (s, "bad-op")
   | ["reopen", n] =>
+    if (n.toNat?.map (fun k => !(openable BS k))).getD false then (none, "panic") else
     match s, n.toNat? with
     | some (st, h), some n =>
       match reopen st n with
